@@ -1540,7 +1540,8 @@ func c08Digest(dest string) string {
 	return hex.EncodeToString(h.Sum(nil))
 }
 
-// kind 0801.  input: (view prior nsched seed chunk)
+// kind 0801.  input: (view prior nsched seed chunk [nofile])
+// nofile > 0: the soft RLIMIT_NOFILE of the process is lowered to that value while the case runs
 // The same transfer is run under nsched forced schedules: stream buffer 0..64, GOMAXPROCS
 // 1..16, seeded yields / short sleeps around every stream operation, source read and user
 // callback; the stream scribbles over every DATA payload buffer when the next RecvMsg starts.
@@ -1564,6 +1565,22 @@ func run0801(in Sx) (out Sx) {
 	chunk := in.L[4].Int()
 	prevProcs := runtime.GOMAXPROCS(0)
 	defer runtime.GOMAXPROCS(prevProcs)
+	if len(in.L) > 5 && in.L[5].Int() > 0 {
+		// resource-bounded run: the soft limit on open descriptors is lowered for all schedules of
+		// this case (a correct receiver keeps at most a few files open however far the listing is
+		// ahead of the data)
+		var old syscall.Rlimit
+		if err := syscall.Getrlimit(syscall.RLIMIT_NOFILE, &old); err == nil {
+			lim := old
+			lim.Cur = uint64(in.L[5].Int())
+			if lim.Cur > old.Max {
+				lim.Cur = old.Max
+			}
+			if syscall.Setrlimit(syscall.RLIMIT_NOFILE, &lim) == nil {
+				defer syscall.Setrlimit(syscall.RLIMIT_NOFILE, &old)
+			}
+		}
+	}
 	var recs []Sx
 	for s := 0; s < nsched; s++ {
 		rr := &c08Rng{r: NewRng(seed*1000003 + uint64(s))}
@@ -1764,8 +1781,10 @@ func genC08(g *Gen) {
 		for k := 0; k < nf; k++ {
 			view = append(view, c04File(fmt.Sprintf("f%05d", k), r.Intn(4), r.U64(), c04Mt+int64(k)))
 		}
-		in := L(ViewSx(view), ViewSx(nil), NI(g.Vol(3, 8)), N(r.U64()%1000000), NI(1+r.Intn(3)))
-		g.EmitWith(0x0801, in, run0801(in), true, "large-tree-opens-gated")
+		// more files than descriptors: the soft RLIMIT_NOFILE is lowered below the number of files
+		nofile := Pick(r, []int{128, 256, 512})
+		in := L(ViewSx(view), ViewSx(nil), NI(g.Vol(3, 8)), N(r.U64()%1000000), NI(1+r.Intn(3)), NI(nofile))
+		g.EmitWith(0x0801, in, run0801(in), true, "large-tree-opens-gated-nofile-limited")
 	}
 	for i := 0; i < n; i++ {
 		var view, prior []*MNode
